@@ -244,6 +244,11 @@ func (h *gatedHarness) checkEmits(inflight *gpay) {
 				h.oracle("C11 event %d handed to composition %d times", u, h.composed[u])
 			}
 		}
+		if e.fate == "composed" && h.broker {
+			// composed, with a Broker configured, and then neither sent nor refused: the group's events are gone
+			// although nothing failed for THEM (an error for another group of the same sweep is no licence)
+			h.oracle("C11 the group of id %d (events %v) was composed and taken out of the gate, but its composite was never handed to the Broker and no error concerns it: accepted events discarded", e.id, e.uids)
+		}
 		h.removeGroup(e.id)
 	}
 }
@@ -254,7 +259,7 @@ func (h *gatedHarness) exec(line string) string {
 	h.st.Ops++
 	h.emits = nil
 	ctx := context.Background()
-	if h.st.Ops%3 == 0 {
+	if len(h.caseOps)%3 == 0 {
 		// every third call gets a context that is already done: the filter's bookkeeping (what is gated, what
 		// expires, what FlushAll / Close empty) does not depend on it (the Sender here ignores the context)
 		c2, cancel := context.WithCancel(ctx)
